@@ -231,6 +231,9 @@ func (g *grpcClient) NewConn(
 	spec Spec,
 	header http.Header,
 ) StreamingClientConn {
+	// The header map may be the caller's own, from a Request that was sent
+	// before: the timeout of that call says nothing about this one.
+	delete(header, grpcHeaderTimeout)
 	if deadline, ok := ctx.Deadline(); ok {
 		if encodedDeadline, err := grpcEncodeTimeout(time.Until(deadline)); err == nil {
 			// Tests verify that the error in encodeTimeout is unreachable, so we
